@@ -431,9 +431,9 @@ def tdBase (w : World) (i : Nat) (s : Sess) : World :=
 
 theorem teardown_eq (w : World) (i : Nat) (s : Sess) :
     teardown w i s =
-      match sessByClientID ((tdBase w i s).node i).dist s.mount s.client with
-      | [] => (tdBase w i s, false)
-      | md :: _ => if md.id ≠ s.id then (tdBase w i s, true) else ((tdBase w i s).sessDelete i s.id, false) := rfl
+      (if (sessByClientID ((tdBase w i s).node i).dist s.mount s.client).any (fun md => md.id == s.id)
+         then (tdBase w i s).sessDelete i s.id else tdBase w i s,
+       (sessByClientID ((tdBase w i s).node i).dist s.mount s.client).any (fun md => md.id != s.id)) := rfl
 
 theorem shutdown_eq0 (w : World) (i : Nat) (s : Sess) (hs : (w.node i).sess s.id = some s) :
     w.shutdownSession i s.id =
@@ -470,10 +470,8 @@ theorem sr_tdBase (w : World) (i : Nat) (s : Sess) : SameReg (unreg w i s.id) (t
 theorem sr_teardown (w : World) (i : Nat) (s : Sess) : SameReg (unreg w i s.id) (teardown w i s).1 := by
   rw [teardown_eq]
   split
+  · exact (sr_tdBase w i s).trans (sr_sessDelete _ _ _)
   · exact sr_tdBase w i s
-  · split
-    · exact sr_tdBase w i s
-    · exact (sr_tdBase w i s).trans (sr_sessDelete _ _ _)
 
 theorem sr_unreg_none (w : World) (i : Nat) (sid : String) (h : (w.node i).sess sid = none) :
     SameReg (unreg w i sid) w := by
@@ -613,10 +611,8 @@ theorem tdBase_out (w : World) (i : Nat) (s : Sess) : (tdBase w i s).out = w.out
 theorem teardown_out (w : World) (i : Nat) (s : Sess) : (teardown w i s).1.out = w.out ++ [(s.conn, Pkt.closed)] := by
   rw [teardown_eq]
   split
+  · simp only [sessDelete_out]; exact tdBase_out w i s
   · exact tdBase_out w i s
-  · split
-    · exact tdBase_out w i s
-    · simp only [sessDelete_out]; exact tdBase_out w i s
 
 
 /-! ### replicated-state frames: writes keyed by one session id -/
@@ -732,10 +728,8 @@ theorem ds_tdBase (w : World) (i : Nat) (s : Sess) : DistSafe s.id w (tdBase w i
 theorem ds_teardown (w : World) (i : Nat) (s : Sess) : DistSafe s.id w (teardown w i s).1 := by
   rw [teardown_eq]
   split
+  · exact (ds_tdBase w i s).trans (ds_sessDelete _ _ _)
   · exact ds_tdBase w i s
-  · split
-    · exact ds_tdBase w i s
-    · exact (ds_tdBase w i s).trans (ds_sessDelete _ _ _)
 
 
 /-- CONNECT up to (and including) the deletion of the record the client id resolved to -/
@@ -1236,12 +1230,10 @@ theorem teardown_gone (w : World) (i : Nat) (hi : i < w.nodes.length) (s : Sess)
     Gone s.id t ((teardown w i s).1.node i).dist.subs := by
   rw [teardown_eq]
   split
+  · simp only
+    rw [sessDelete_node_subs]
+    exact tdBase_gone w i hi s h t ht
   · exact tdBase_gone w i hi s h t ht
-  · split
-    · exact tdBase_gone w i hi s h t ht
-    · simp only
-      rw [sessDelete_node_subs]
-      exact tdBase_gone w i hi s h t ht
 
 theorem mem_subByPattern {st : State} {topic : String} {u : Sub} (h : u ∈ subByPattern st topic) :
     ∃ kl ∈ st.subs, u ∈ kl.2 ∧ isAdded u.stamp = true := by
